@@ -17,6 +17,7 @@ Section PInd.
   Hypothesis HWhile : forall c b, Forall Q b -> Q (PWhile c b).
   Hypothesis HFor : forall x c b, Forall Q b -> Q (PFor x c b).
   Hypothesis HBreak : Q PBreak.
+  Hypothesis HContinue : Q PContinue.
   Hypothesis HWrite : forall e, Q (PWrite e).
   Hypothesis HSleep : forall e, Q (PSleep e).
   Hypothesis HExprS : forall e, Q (PExprS e).
@@ -29,7 +30,7 @@ Section PInd.
     | PAssign x e => HAssign x e | PAug x op e t => HAug x op e t | PTuple xs es => HTuple xs es
     | PIf c b el e => HIf c b el e (go b) (gob el) (go e)
     | PWhile c b => HWhile c b (go b) | PFor x c b => HFor x c b (go b)
-    | PBreak => HBreak | PWrite e => HWrite e | PSleep e => HSleep e | PExprS e => HExprS e
+    | PBreak => HBreak | PContinue => HContinue | PWrite e => HWrite e | PSleep e => HSleep e | PExprS e => HExprS e
     end.
 End PInd.
 
@@ -114,8 +115,36 @@ Proof.
   unfold tuple_decl_ok. intro H.
   apply andb_true_iff in H as [H H4]. apply andb_true_iff in H as [H H3]. apply andb_true_iff in H as [H1 H2].
   apply Nat.eqb_eq in H1. split; [exact H1|]. split; [exact H2|]. split; [|exact H4].
-  intros x Hx. rewrite forallb_forall in H3. apply H3 in Hx. apply andb_true_iff in Hx as [A B].
+  intros x Hx. rewrite forallb_forall in H3. apply H3 in Hx. apply andb_true_iff in Hx as [Hx _].
+  apply andb_true_iff in Hx as [A B].
   apply negb_true_iff in A, B. auto.
+Qed.
+
+Lemma tuple_decl_ok_nt D L xs es : tuple_decl_ok D L xs es = true -> forall x, In x xs -> is_tmp x = false.
+Proof.
+  unfold tuple_decl_ok. intro H.
+  apply andb_true_iff in H as [H _]. apply andb_true_iff in H as [_ H3].
+  intros x Hx. rewrite forallb_forall in H3. apply H3 in Hx. apply andb_true_iff in Hx as [_ Hx].
+  apply negb_true_iff in Hx. exact Hx.
+Qed.
+
+
+Lemma tuple_asg_tys_inv D L : forall xs es, tuple_asg_tys D L xs es = true ->
+  length xs = length es /\ forall x, In x xs -> tmem x (map fst D) = true /\ tmem x L = false.
+Proof.
+  induction xs as [|x xr IH]; intros [|e er] H; cbn in H; try discriminate.
+  - split; [reflexivity|intros x []].
+  - apply andb_true_iff in H as [H H3]. apply andb_true_iff in H as [H1 H2].
+    destruct (IH er H3) as [I1 I2]. split; [cbn; congruence|].
+    intros y [<-|Hy]; [|apply I2; exact Hy]. apply negb_true_iff in H1. split; [|exact H1].
+    destruct (tlookup x D) eqn:E; [|discriminate]. eapply tlookup_dom_true; eauto.
+Qed.
+
+Lemma tuple_asg_ok_inv D L xs es : tuple_asg_ok D L xs es = true ->
+  xs <> [] /\ forallb (fv_ok D L) es = true /\ tuple_asg_tys D L xs es = true.
+Proof.
+  unfold tuple_asg_ok. intro H. apply andb_true_iff in H as [H H3]. apply andb_true_iff in H as [H1 H2].
+  split; [destruct xs; [discriminate|discriminate]|auto].
 Qed.
 
 Lemma ty_eqb_eq a b : ty_eqb a b = true -> a = b.
@@ -124,15 +153,15 @@ Proof. destruct a, b; cbn; intro H; try discriminate; reflexivity. Qed.
 Lemma g_step_cases f top D L p D1 :
   g_step f top D L p = Some D1 ->
   D1 = D \/ (exists x e, p = PAssign x e /\ top = true /\ tlookup x D = None /\ D1 = D ++ [(x, a_ty e)])
-  \/ (exists xs es, p = PTuple xs es /\ top = true /\ tuple_decl_ok D L xs es = true /\ D1 = D ++ combine xs (map a_ty es)).
+  \/ (exists xs es, p = PTuple xs es /\ top = true /\ tuple_asg_ok D L xs es = false /\ tuple_decl_ok D L xs es = true /\ D1 = D ++ combine xs (map a_ty es)).
 Proof.
   unfold g_step. destruct p;
     repeat match goal with
     | |- context [match tlookup ?x ?DD with _ => _ end] => destruct (tlookup x DD) eqn:?
     | |- context [if ?c then _ else _] => destruct c eqn:?
     end; intro H; inversion H; subst; auto.
-  - right. left. eauto 10.
-  - right. right. apply andb_true_iff in Heqb as [-> Hk]. eauto 10.
+  - right. left. apply andb_true_iff in Heqb0 as [-> _]. eauto 10.
+  - right. right. apply andb_true_iff in Heqb0 as [-> Hk]. eauto 10.
 Qed.
 
 Lemma g_step_nested f D L p D1 : g_step f false D L p = Some D1 -> D1 = D.
@@ -142,7 +171,7 @@ Qed.
 
 Lemma g_step_ext f top D L p D1 : g_step f top D L p = Some D1 -> ext D D1.
 Proof.
-  intro H. apply g_step_cases in H as [->|[(x & e & _ & _ & _ & ->)|(xs & es & _ & _ & _ & ->)]];
+  intro H. apply g_step_cases in H as [->|[(x & e & _ & _ & _ & ->)|(xs & es & _ & _ & _ & _ & ->)]];
     [apply ext_refl|apply ext_snoc|apply ext_app].
 Qed.
 
@@ -187,13 +216,16 @@ Proof.
     destruct (negb (fv_ok D L e) || tmem x0 L); [discriminate|].
     destruct (tlookup x0 D) as [t|] eqn:El.
     + apply (ext_dom D); [exact HE|]. eapply tlookup_dom_true; eauto.
-    + destruct top; [|discriminate]. inversion HS; subst.
+    + destruct (top && negb (is_tmp x0)); [|discriminate]. inversion HS; subst.
       rewrite map_app, tmem_app. cbn. rewrite text_eqb_refl. cbn. apply orb_true_r.
   - destruct Hx as [<-|[]].
     destruct (negb (fv_ok D L e) || tmem x0 L); [discriminate|].
     destruct (tlookup x0 D) as [t0|] eqn:El; [|discriminate].
     apply (ext_dom D); [exact HE|]. eapply tlookup_dom_true; eauto.
-  - (* tuple declaration *)
+  - (* tuple assignment / declaration *)
+    destruct (tuple_asg_ok D L xs es) eqn:Hq.
+    { inversion HS; subst D1. apply tuple_asg_ok_inv in Hq as (_ & _ & Hq). apply tuple_asg_tys_inv in Hq as [_ Hq].
+      apply (Hq x Hx). }
     destruct (top && tuple_decl_ok D L xs es) eqn:Hk; [|discriminate]. inversion HS; subst D1.
     apply andb_true_iff in Hk as [_ Hk]. apply tuple_decl_ok_inv in Hk as (Hlen & _ & _ & _).
     rewrite map_app, tmem_app, map_fst_combine by (rewrite map_length; exact Hlen).
@@ -244,27 +276,27 @@ Proof.
   f_equal. apply IH. congruence.
 Qed.
 
-Lemma trt_fresh : forall ps D g, In g (snd (trt D ps)) -> tmem (g_name g) D = false.
+Lemma trt_fresh ret : forall ps k D g, In g (snd (trt ret k D ps)) -> tmem (g_name g) D = false.
 Proof.
-  induction ps as [|p r IH]; intros D g Hg; [destruct Hg|].
-  assert (K : In g (snd (trt D r)) -> tmem (g_name g) D = false) by apply IH.
-  assert (K2 : forall X, In g (snd (trt (D ++ X) r)) -> tmem (g_name g) D = false).
+  induction ps as [|p r IH]; intros k D g Hg; [destruct Hg|].
+  assert (K : forall k', In g (snd (trt ret k' D r)) -> tmem (g_name g) D = false) by (intro k'; apply IH).
+  assert (K2 : forall X, In g (snd (trt ret k (D ++ X) r)) -> tmem (g_name g) D = false).
   { intros X H. apply IH in H. rewrite tmem_app in H. apply orb_false_iff in H as [H _]. exact H. }
-  destruct p; cbn [trt snd] in Hg; try (apply K; exact Hg).
-  - destruct (tmem x D) eqn:Ex; [apply K; exact Hg|].
+  destruct p; cbn [trt snd] in Hg; try (eapply K; exact Hg).
+  - destruct (tmem x D) eqn:Ex; [eapply K; exact Hg|].
     destruct (closed_const e); cbn [snd] in Hg; destruct Hg as [<-|Hg]; cbn [g_name]; eauto.
-  - match type of Hg with context [if ?c then _ else _] => destruct c eqn:Hc end; cbn [snd] in Hg; [|apply K; exact Hg].
+  - match type of Hg with context [if ?c then _ else _] => destruct c eqn:Hc end; cbn [snd] in Hg; [|eapply K; exact Hg].
     apply andb_true_iff in Hc as [Hc _]. apply andb_true_iff in Hc as [_ Hc].
     apply in_app_or in Hg as [Hg|Hg]; [|eapply K2; eauto].
     apply tup_globals_names in Hg. rewrite forallb_forall in Hc. apply Hc in Hg. apply negb_true_iff in Hg. exact Hg.
 Qed.
 
-Lemma trt_nodup : forall ps D, NoDup (map g_name (snd (trt D ps))).
+Lemma trt_nodup ret : forall ps k D, NoDup (map g_name (snd (trt ret k D ps))).
 Proof.
-  induction ps as [|p r IH]; intro D; [constructor|].
+  induction ps as [|p r IH]; intros k D; [constructor|].
   destruct p; cbn [trt snd]; try apply IH.
   - destruct (tmem x D) eqn:Ex; [apply IH|].
-    assert (N : ~ In x (map g_name (snd (trt (D ++ [x]) r)))).
+    assert (N : ~ In x (map g_name (snd (trt ret k (D ++ [x]) r)))).
     { intro HI. apply in_map_iff in HI as (g & <- & Hg). apply trt_fresh in Hg.
       rewrite tmem_app in Hg. apply orb_false_iff in Hg as [_ Hg]. cbn in Hg. rewrite text_eqb_refl in Hg. discriminate. }
     destruct (closed_const e); cbn [snd map g_name]; constructor; auto.
@@ -275,47 +307,47 @@ Proof.
     rewrite tmem_app in Hg. apply orb_false_iff in Hg as [_ Hg]. apply tmem_In in Hy. congruence.
 Qed.
 
-Lemma trm_fresh top lm D ps g : In g (snd (trm top lm D ps)) -> tmem (g_name g) (map fst D) = false.
+Lemma trm_fresh ret k top lm D ps g : In g (snd (trm ret k top lm D ps)) -> tmem (g_name g) (map fst D) = false.
 Proof. destruct top, lm; cbn; try (intros []); apply trt_fresh. Qed.
 
-Lemma trm_nil top lm D : trm top lm D [] = ([], []).
+Lemma trm_nil ret k top lm D : trm ret k top lm D [] = ([], []).
 Proof. destruct top, lm; reflexivity. Qed.
 
-Lemma trm_cons_old top lm D x e rest t : tlookup x D = Some t ->
-  trm top lm D (PAssign x e :: rest) = (tr1 (PAssign x e) ++ fst (trm top lm D rest), snd (trm top lm D rest)).
+Lemma trm_cons_old ret k top lm D x e rest t : tlookup x D = Some t ->
+  trm ret k top lm D (PAssign x e :: rest) = (tr1 ret k (PAssign x e) ++ fst (trm ret k top lm D rest), snd (trm ret k top lm D rest)).
 Proof.
   intro H. destruct top; [|reflexivity]. destruct lm; unfold trm; cbn [trt trl];
     match goal with |- context [tmem x ?l] => replace (tmem x l) with true by (symmetry; eapply tlookup_dom_true; eauto) end;
     reflexivity.
 Qed.
 
-Lemma trm_cons_new D x e rest : tlookup x D = None ->
-  trm true false D (PAssign x e :: rest) =
+Lemma trm_cons_new ret k D x e rest : tlookup x D = None ->
+  trm ret k true false D (PAssign x e :: rest) =
   if closed_const e
-  then (fst (trm true false (D ++ [(x, a_ty e)]) rest),
-        {| g_name := x; g_ty := a_ty e; g_init := XE (a_id e) |} :: snd (trm true false (D ++ [(x, a_ty e)]) rest))
-  else (NAssign x (XE (a_id e)) :: fst (trm true false (D ++ [(x, a_ty e)]) rest),
-        {| g_name := x; g_ty := a_ty e; g_init := XDefault (a_ty e) |} :: snd (trm true false (D ++ [(x, a_ty e)]) rest)).
+  then (fst (trm ret k true false (D ++ [(x, a_ty e)]) rest),
+        {| g_name := x; g_ty := a_ty e; g_init := XE (a_id e) |} :: snd (trm ret k true false (D ++ [(x, a_ty e)]) rest))
+  else (NAssign x (XE (a_id e)) :: fst (trm ret k true false (D ++ [(x, a_ty e)]) rest),
+        {| g_name := x; g_ty := a_ty e; g_init := XDefault (a_ty e) |} :: snd (trm ret k true false (D ++ [(x, a_ty e)]) rest)).
 Proof.
   intro H. unfold trm. cbn [trt].
   match goal with |- context [tmem x ?l] => replace (tmem x l) with false by (symmetry; eapply tlookup_dom_false; eauto) end.
   rewrite map_app. reflexivity.
 Qed.
 
-Lemma trm_cons_newl D x e rest : tlookup x D = None ->
-  trm true true D (PAssign x e :: rest) =
-  (NDecl x (a_ty e) (XE (a_id e)) false :: fst (trm true true (D ++ [(x, a_ty e)]) rest),
-   snd (trm true true (D ++ [(x, a_ty e)]) rest)).
+Lemma trm_cons_newl ret k D x e rest : tlookup x D = None ->
+  trm ret k true true D (PAssign x e :: rest) =
+  (NDecl x (a_ty e) (XE (a_id e)) false :: fst (trm ret k true true (D ++ [(x, a_ty e)]) rest),
+   snd (trm ret k true true (D ++ [(x, a_ty e)]) rest)).
 Proof.
   intro H. unfold trm. cbn [trl fst snd].
   match goal with |- context [tmem x ?l] => replace (tmem x l) with false by (symmetry; eapply tlookup_dom_false; eauto) end.
   rewrite map_app. reflexivity.
 Qed.
 
-Lemma trm_cons_tuple D L xs es rest : tuple_decl_ok D L xs es = true ->
-  trm true false D (PTuple xs es :: rest) =
-  (tup_nodes xs es ++ fst (trm true false (D ++ combine xs (map a_ty es)) rest),
-   tup_globals xs es ++ snd (trm true false (D ++ combine xs (map a_ty es)) rest)).
+Lemma trm_cons_tuple ret k D L xs es rest : tuple_decl_ok D L xs es = true ->
+  trm ret k true false D (PTuple xs es :: rest) =
+  (tup_nodes xs es ++ fst (trm ret k true false (D ++ combine xs (map a_ty es)) rest),
+   tup_globals xs es ++ snd (trm ret k true false (D ++ combine xs (map a_ty es)) rest)).
 Proof.
   intro H. apply tuple_decl_ok_inv in H as (Hlen & _ & Hnew & Hnd).
   unfold trm. cbn [trt]. rewrite map_app, map_fst_combine by (rewrite map_length; exact Hlen).
@@ -325,12 +357,24 @@ Proof.
   rewrite E. reflexivity.
 Qed.
 
-Lemma trm_cons_other top lm D p rest :
+Lemma trm_cons_other ret k top lm D p rest :
   match p with PAssign _ _ | PTuple _ _ => False | _ => True end ->
-  trm top lm D (p :: rest) = (tr1 p ++ fst (trm top lm D rest), snd (trm top lm D rest)).
+  trm ret k top lm D (p :: rest) = (tr1 ret k p ++ fst (trm ret (knext k p) top lm D rest), snd (trm ret (knext k p) top lm D rest)).
 Proof. intro H. destruct top, lm; destruct p; try reflexivity; destruct H. Qed.
 
-Lemma trm_local_snd D ps : snd (trm true true D ps) = [].
+(* a tuple assignment to declared names goes through temporaries at every level *)
+Lemma trm_cons_tuple_asg ret k top lm D L xs es rest : tuple_asg_ok D L xs es = true ->
+  trm ret k top lm D (PTuple xs es :: rest) =
+  (tr1 ret k (PTuple xs es) ++ fst (trm ret (knext k (PTuple xs es)) top lm D rest), snd (trm ret (knext k (PTuple xs es)) top lm D rest)).
+Proof.
+  intro H. destruct top; [|reflexivity]. destruct lm; [reflexivity|].
+  apply tuple_asg_ok_inv in H as (Hne & _ & Ht). apply tuple_asg_tys_inv in Ht as [_ Hd].
+  unfold trm. cbn [trt].
+  destruct xs as [|x xr]; [congruence|]. destruct (Hd x (or_introl eq_refl)) as [Hx _].
+  cbn [forallb]. rewrite Hx. cbn [negb andb]. rewrite andb_false_r. reflexivity.
+Qed.
+
+Lemma trm_local_snd ret k D ps : snd (trm ret k true true D ps) = [].
 Proof. reflexivity. Qed.
 
 Lemma closed_const_fv e : closed_const e = true -> a_fv e = [].
@@ -484,4 +528,145 @@ Qed.
 Lemma tmem_false_lookup {A} x (l : list (text * A)) : tmem x (map fst l) = false -> tlookup x l = None.
 Proof.
   intro H. destruct (tlookup x l) eqn:E; [|reflexivity]. apply tlookup_dom_true in E. exact (match bool_contra _ E H with end).
+Qed.
+
+(* ---- declared names are not temporaries' names ---- *)
+Definition NT (D : tenv) (L : list ident) : Prop :=
+  forall x, tmem x (map fst D) = true \/ tmem x L = true -> is_tmp x = false.
+
+Lemma NT_push D L x : NT D L -> is_tmp x = false -> NT D (x :: L).
+Proof.
+  intros H Hx y [Hy|Hy]; [apply H; left; exact Hy|]. cbn [tmem] in Hy.
+  destruct (text_eqb y x) eqn:E; [apply text_eqb_eq in E; subst; exact Hx|]. apply H. right. exact Hy.
+Qed.
+
+Lemma NT_app D L X : NT D L -> (forall x, In x (map fst X) -> is_tmp x = false) -> NT (D ++ X) L.
+Proof.
+  intros H HX y [Hy|Hy]; [|apply H; right; exact Hy].
+  rewrite map_app, tmem_app in Hy. apply orb_true_iff in Hy as [Hy|Hy]; [apply H; left; exact Hy|].
+  apply HX. apply tmem_In. exact Hy.
+Qed.
+
+Lemma g_step_NT f top D L p D1 : g_step f top D L p = Some D1 -> NT D L -> NT D1 L.
+Proof.
+  intros HS HNT. destruct (g_step_cases _ _ _ _ _ _ HS) as [->|[(x & e & -> & -> & Hl & ->)|(xs & es & -> & -> & _ & Hk & ->)]].
+  - exact HNT.
+  - apply NT_app; [exact HNT|]. intros y [<-|[]].
+    cbn [g_step] in HS. destruct (negb (fv_ok D L e) || tmem x L); [discriminate|]. rewrite Hl in HS.
+    cbn [fst]. destruct (is_tmp x); [discriminate|reflexivity].
+  - apply NT_app; [exact HNT|]. intros y Hy.
+    destruct (tuple_decl_ok_inv _ _ _ _ Hk) as (Hlen & _).
+    rewrite map_fst_combine in Hy by (rewrite map_length; exact Hlen).
+    eapply tuple_decl_ok_nt; eauto.
+Qed.
+
+Lemma no_top_tuple_tail D D1 p rest : ext D D1 -> no_top_tuple D (p :: rest) = true -> no_top_tuple D1 rest = true.
+Proof.
+  intros HE H. cbn [no_top_tuple forallb] in H. apply andb_true_iff in H as [_ H].
+  unfold no_top_tuple in *. rewrite forallb_forall in *. intros q Hq. specialize (H q Hq).
+  destruct q; try exact H. destruct xs as [|x xr]; [exact H|].
+  rewrite forallb_forall in *. intros y Hy. eapply ext_dom; [exact HE|]. apply H. exact Hy.
+Qed.
+
+Lemma no_top_tuple_decl D L xs es rest :
+  no_top_tuple D (PTuple xs es :: rest) = true -> tuple_decl_ok D L xs es = true -> False.
+Proof.
+  intros H Hk. cbn [no_top_tuple forallb] in H. apply andb_true_iff in H as [H _].
+  destruct xs as [|x xr]; [discriminate|]. rewrite forallb_forall in H. specialize (H x (or_introl eq_refl)).
+  destruct (tuple_decl_ok_inv _ _ _ _ Hk) as (_ & _ & Hn & _). destruct (Hn x (or_introl eq_refl)) as [A _]. congruence.
+Qed.
+
+(* a binding of a temporary on top of the store is invisible to the relation *)
+Lemma Rel_tmp D L rho (sg : StmtSem.cstore) k b : NT D L -> Rel D L rho sg -> Rel D L rho ((tmp_name k, b) :: sg).
+Proof.
+  intros HNT HR. eapply Rel_frame; [exact HR|]. intros y Hy. cbn [tlookup].
+  destruct (text_eqb y (tmp_name k)) eqn:E; [|reflexivity].
+  apply text_eqb_eq in E. subst y. apply HNT in Hy. discriminate.
+Qed.
+
+Lemma g_block_NT : forall f top D L ps D', g_block f top D L ps = Some D' -> NT D L -> NT D' L.
+Proof.
+  induction f as [|f IH]; intros top D L ps D' H HN; [discriminate|].
+  destruct ps as [|p rest]; [inversion H; subst; exact HN|].
+  rewrite g_block_cons in H. destruct (g_step f top D L p) as [D1|] eqn:E; [|discriminate].
+  eapply IH; [exact H|]. eapply g_step_NT; eauto.
+Qed.
+
+Definition TmpKeys (T : StmtSem.cstore) : Prop := forall z, tmem z (map fst T) = true -> is_tmp z = true.
+
+Lemma tlookup_skip_tmps (T s : StmtSem.cstore) y : TmpKeys T -> is_tmp y = false -> tlookup y (T ++ s) = tlookup y s.
+Proof.
+  intros HT Hy. rewrite tlookup_app. destruct (tlookup y T) eqn:E; [|reflexivity].
+  apply tlookup_dom_true in E. apply HT in E. congruence.
+Qed.
+
+Lemma Rel_tmps D L rho (T s : StmtSem.cstore) : NT D L -> TmpKeys T -> Rel D L rho s -> Rel D L rho (T ++ s).
+Proof. intros HN HT HR. eapply Rel_frame; [exact HR|]. intros y Hy. apply tlookup_skip_tmps; [exact HT|apply HN; exact Hy]. Qed.
+
+Lemma Rel_untmps D L rho (T s : StmtSem.cstore) : NT D L -> TmpKeys T -> Rel D L rho (T ++ s) -> Rel D L rho s.
+Proof. intros HN HT HR. eapply Rel_frame; [exact HR|]. intros y Hy. symmetry. apply tlookup_skip_tmps; [exact HT|apply HN; exact Hy]. Qed.
+
+Lemma TmpKeys_app T1 T2 : TmpKeys T1 -> TmpKeys T2 -> TmpKeys (T1 ++ T2).
+Proof. intros H1 H2 z Hz. rewrite map_app, tmem_app in Hz. apply orb_true_iff in Hz as [Hz|Hz]; auto. Qed.
+
+Lemma TmpKeys_nil : TmpKeys [].
+Proof. intros z Hz. discriminate. Qed.
+
+Lemma Fr_app_inv N (a1 a2 b : SimStoreP.cstore) : Fr N (a1 ++ a2) b ->
+  exists b1 b2, b = b1 ++ b2 /\ Fr N a1 b1 /\ Fr N a2 b2.
+Proof.
+  revert b. induction a1 as [|p a1 IH]; intros b H.
+  - exists [], b. split; [reflexivity|]. split; [constructor|exact H].
+  - inversion H as [|? q ? b' Hpq Hr]; subst. destruct (IH b' Hr) as (b1 & b2 & -> & H1 & H2).
+    exists (q :: b1), b2. split; [reflexivity|]. split; [constructor; assumption|exact H2].
+Qed.
+
+Lemma Fr_keys N (a b : SimStoreP.cstore) : Fr N a b -> map fst b = map fst a.
+Proof. induction 1 as [|p q a b (E1 & _) _ IH]; cbn; [reflexivity|]. rewrite IH, E1. reflexivity. Qed.
+
+Lemma Fr_TmpKeys N (a b : SimStoreP.cstore) : Fr N a b -> TmpKeys a -> TmpKeys b.
+Proof. intros H HT z Hz. rewrite (Fr_keys _ _ _ H) in Hz. apply HT. exact Hz. Qed.
+
+(* the globals a guarded top-level statement list declares have proper (non-temporary) names *)
+Lemma trt_names_nt ret : forall ps gf k D L D' g,
+  g_block gf true D L ps = Some D' -> In g (snd (trt ret k (map fst D) ps)) -> is_tmp (g_name g) = false.
+Proof.
+  induction ps as [|p r IH]; intros gf k D L D' g HG Hg; [destruct Hg|].
+  apply g_block_cons_inv in HG as (gf' & D1 & -> & HS & HG).
+  assert (SAME : D1 = D -> forall k', In g (snd (trt ret k' (map fst D) r)) -> is_tmp (g_name g) = false).
+  { intros -> k' H. eapply IH; eauto. }
+  destruct p; cbn [trt snd] in Hg.
+  all: try (destruct (g_step_cases _ _ _ _ _ _ HS) as [E|[(x0 & e0 & E & _)|(xs0 & es0 & E & _)]]; try discriminate E;
+            eapply SAME; [exact E|exact Hg]).
+  - (* PAssign *)
+    cbn [g_step] in HS. destruct (negb (fv_ok D L e) || tmem x L); [discriminate|].
+    destruct (tlookup x D) as [t|] eqn:Hl.
+    + match type of Hg with context [tmem x ?l] => replace (tmem x l) with true in Hg by (symmetry; eapply tlookup_dom_true; eauto) end. destruct (ty_eqb t (a_ty e)); [|discriminate]. inversion HS; subst D1.
+      eapply SAME; [reflexivity|exact Hg].
+    + match type of Hg with context [tmem x ?l] => replace (tmem x l) with false in Hg by (symmetry; eapply tlookup_dom_false; eauto) end.
+      destruct (is_tmp x) eqn:Hxt; [discriminate HS|].
+      cbn [andb negb] in HS. inversion HS; subst D1.
+      destruct (closed_const e); cbn [snd] in Hg; (destruct Hg as [<-|Hg]; [exact Hxt|]);
+        (eapply IH; [exact HG|]; rewrite map_app; exact Hg).
+  - (* PTuple *)
+    cbn [g_step] in HS.
+    match type of Hg with context [if ?c then _ else _] => destruct c eqn:Hc end; cbn [snd] in Hg.
+    + destruct (tuple_asg_ok D L xs es) eqn:Hq.
+      { exfalso. apply tuple_asg_ok_inv in Hq as (Hne & _ & Hty). apply tuple_asg_tys_inv in Hty as [_ Hd].
+        destruct xs as [|x xr]; [congruence|]. destruct (Hd x (or_introl eq_refl)) as [Hx _].
+        apply andb_true_iff in Hc as [Hc _]. apply andb_true_iff in Hc as [_ Hc]. cbn [forallb] in Hc.
+        rewrite Hx in Hc. discriminate. }
+      cbn [andb] in HS. destruct (tuple_decl_ok D L xs es) eqn:Hk; [|discriminate]. inversion HS; subst D1.
+      destruct (tuple_decl_ok_inv _ _ _ _ Hk) as (Hlen & _).
+      apply in_app_or in Hg as [Hg|Hg].
+      * apply tup_globals_names in Hg. eapply tuple_decl_ok_nt; eauto.
+      * eapply IH; [exact HG|]. rewrite map_app, map_fst_combine by (rewrite map_length; exact Hlen). exact Hg.
+    + destruct (tuple_asg_ok D L xs es) eqn:Hq.
+      { inversion HS; subst D1. eapply SAME; [reflexivity|exact Hg]. }
+      cbn [andb] in HS. destruct (tuple_decl_ok D L xs es) eqn:Hk; [|discriminate]. exfalso.
+      destruct (tuple_decl_ok_inv _ _ _ _ Hk) as (Hlen & _ & Hnew & Hnd).
+      apply Nat.eqb_eq in Hlen. rewrite Hlen, Hnd in Hc. cbn in Hc. rewrite andb_true_r in Hc.
+      assert (X : forallb (fun x => negb (tmem x (map fst D))) xs = true).
+      { apply forallb_forall. intros x Hx. apply negb_true_iff. apply (Hnew x Hx). }
+      congruence.
 Qed.
